@@ -19,7 +19,8 @@ package liveness
 //   - any other answer must have called the probe exactly once, with that address, and must return
 //     the verdict that probe call returned (an error other than the probe's is only counted);
 //   - a cache with a configured capacity never reports Len() above it at a quiescent point, and
-//     between two insertions it never serves more distinct addresses than its capacity.
+//     between two probes (only a probe result is ever inserted) it never serves more distinct
+//     addresses than its capacity.
 // A cache may always probe again: fewer hits than the reference would allow are never charged.
 //
 // All function / type names contain "verif" so that the orchestrator's race attribution never takes a
@@ -208,7 +209,7 @@ type verifC18Seq struct {
 
 	now    int       // harness time in steps
 	last   [8][2]int // harness time of the latest probe of address i that returned verdict v (-1: never)
-	served [2]uint16 // addresses served from cache v since the last measurement with verdict v
+	served [2]uint16 // addresses served from cache v since the last measurement (probe call)
 
 	trace []verifC18StepRec
 	viols []verifC18Viol
@@ -323,6 +324,7 @@ func (s *verifC18Seq) verifQuery(ai int, scriptLive bool, port uint16) {
 	// the reference learns about every measurement that was taken, whoever asked for it
 	for _, c := range s.calls {
 		s.probes++
+		s.served = [2]uint16{} // a measurement may insert (and evict): the served sets start over
 		if h, _, e := net.SplitHostPort(c.addr); e == nil {
 			if i, ok := verifC18AddrIdx[h]; ok {
 				if s.seen&(1<<uint(i)) != 0 {
@@ -331,7 +333,6 @@ func (s *verifC18Seq) verifQuery(ai int, scriptLive bool, port uint16) {
 				s.seen |= 1 << uint(i)
 				v := verifC18B2I(c.live)
 				s.last[i][v] = s.now
-				s.served[v] = 0
 			}
 		}
 	}
@@ -355,7 +356,7 @@ func (s *verifC18Seq) verifQuery(ai int, scriptLive bool, port uint16) {
 		}
 		s.served[v] |= 1 << uint(ai)
 		if s.capa[v] > 0 && s.life[v] > 0 && bits.OnesCount16(s.served[v]) > s.capa[v] {
-			s.verifViol(s.verifBoundSig("served", v), fmt.Sprintf("%d distinct addresses were answered from the %s cache (capacity %d) with no insertion in between", bits.OnesCount16(s.served[v]), vn, s.capa[v]))
+			s.verifViol(s.verifBoundSig("served", v), fmt.Sprintf("%d distinct addresses were answered from the %s cache (capacity %d) with no probe in between", bits.OnesCount16(s.served[v]), vn, s.capa[v]))
 		}
 	} else {
 		want := net.JoinHostPort(addr, strconv.Itoa(int(port)))
@@ -643,8 +644,9 @@ func TestVerifC18Exhaustive(t *testing.T) {
 						errd += s.errDiffers
 						if code, nt := s.verifShape(); nt {
 							shapes[code] = struct{}{}
-							// a few written-out histories: full length, a hit, a re-probe and an expiry or bounded cache
-							if L == j.maxLen && sampled < 1 && s.hits > 0 && s.reprobes > 0 && h%9973 == 17 && rec.WantSample() {
+							// a few written-out histories (a different one per configuration): full length, with a
+							// cache hit, a re-probe of a known address and a time advance
+							if L == j.maxLen && sampled < 1 && s.hits > 0 && s.reprobes > 0 && s.now > 0 && h%997 == (17+j.idx*131)%997 && j.idx%9 == 2 && rec.WantSample() {
 								sampled++
 								rec.Sample(map[string]interface{}{"phase": "exhaustive", "config": j.cfg, "history": s.verifTrace(L)})
 							}
